@@ -9,7 +9,7 @@ import io
 import itertools
 import plistlib
 
-from vlib import core, logs, wire
+from vlib import core, gen, logs, wire
 
 LEVEL = 'exploration'
 RULE = ('records = mandatory keys + {empty, every single, every pair, all 31} subsets of the optional keys + random subsets; '
@@ -399,6 +399,71 @@ def end_to_end(res, ctx, rng):
         res.count('records_through_v3', len(got))
 
 
+def shared_section_parser(res, ctx, rng):
+    """ONE container-parser object reads several v3 dumps whose generators are alive at the same time and advanced in turns
+    (one object kept for a session, dumps compared side by side): the string tables give DIFFERENT texts to the same
+    indices, and every record is still decoded through the index of its own dump.  Also the same dumps one after the
+    other on that object, the first generator abandoned half way."""
+    import copy
+    import itertools
+    from pykdebugparser.kd_buf_parser import KdBufParser
+    from pykdebugparser.os_log_event import OsLogEvent
+    for _ in range(ctx.pick(12, 150) // ctx.nshards + 1):
+        strings = logs.Strings(rng)
+        n_dumps = rng.choice((2, 2, 3))
+        raws = [[logs.gen_event(rng, strings, [k for k in logs.OPTIONAL_KEYS if rng.random() < 0.4])
+                 for _ in range(rng.randrange(2, 6))] for _ in range(n_dumps)]
+        base = dict(strings.inverted())
+        tables = [{i: f'{"ABC"[d]}:{t}' for i, t in base.items()} for d in range(n_dumps)]
+        datas = []
+        for d in range(n_dumps):
+            blocks = [(wire.TAG_LOG_EVENTS, plistlib.dumps({'Events': raws[d]}, fmt=plistlib.FMT_BINARY)),
+                      (wire.TAG_LOG_STRINGS, plistlib.dumps({'StringIndex': {t: i for i, t in tables[d].items()}},
+                                                            fmt=rng.choice((plistlib.FMT_BINARY, plistlib.FMT_XML))))]
+            if rng.random() < 0.5:
+                blocks.reverse()
+            recs = gen.gen_records(rng, rng.choice((0, 0, 1, 3))) if rng.random() < 0.5 else []
+            datas.append(wire.V3Spec(chunks=[recs], blocks=blocks).build())
+        case = {'files': datas}
+        parser = KdBufParser({}, {})
+        mode = rng.choice(('in turns', 'in turns', 'first abandoned half way'))
+        got = [[] for _ in datas]
+        try:
+            if mode == 'in turns':
+                gens = [(x for x in parser.parse(wire.stream(d)) if isinstance(x, OsLogEvent)) for d in datas]
+                order = list(range(n_dumps))
+                for row in itertools.zip_longest(*gens):
+                    for i in order:
+                        if row[i] is not None:
+                            got[i].append(row[i])
+            else:
+                first = (x for x in parser.parse(wire.stream(datas[0])) if isinstance(x, OsLogEvent))
+                got[0].append(next(first))
+                for i in range(1, n_dumps):
+                    got[i] = [x for x in parser.parse(wire.stream(datas[i])) if isinstance(x, OsLogEvent)]
+                got[0] += list(first)
+        except Exception as x:
+            res.violation(f'c16-shared-parser-raises-{core.exc_name(x)}', f'one parser object, {n_dumps} v3 dumps read {mode}: '
+                          f'{x!r} at {core.short_tb(x)}', case)
+            continue
+        res.case(tuple(datas))
+        for i in range(n_dumps):
+            if len(got[i]) != len(raws[i]):
+                res.violation('c16-v3-count', f'one parser object, {n_dumps} v3 dumps read {mode}: {len(got[i])} of '
+                              f'{len(raws[i])} records of dump {i}', case)
+                break
+            bad = None
+            for g, raw in zip(got[i], raws[i]):
+                bad = logs.compare(g, logs.ref_decode(raw, tables[i]))
+                if bad:
+                    break
+            if bad:
+                res.violation('c16-field-' + bad[0][0].split('.')[0] + '-of-another-dump', f'one parser object, {n_dumps} v3 dumps '
+                              f'whose string tables give different texts to the same indices, read {mode}: dump {i}: {bad[:3]}', case)
+                break
+            res.count('records_through_a_shared_section_parser', len(got[i]))
+
+
 def run(ctx):
     res = core.Result()
     # the decoded instants are UTC instants whatever the local zone of the decoding process is
@@ -427,6 +492,7 @@ def run(ctx):
     for _ in range(ctx.pick(2, 10)):
         threaded_decodes(res, ctx, rng)
     end_to_end(res, ctx, rng)
+    shared_section_parser(res, ctx, rng)
     recheck_retained(res)
     if ctx.shard == 0:
         r = core.Ctx('C16', ctx.tier, ctx.seed).rng
@@ -442,6 +508,7 @@ def run(ctx):
     res.require('trace_identifier_words', 200)
     res.require('argument_key_subsets', 64)
     res.require('records_through_v3', 5)
+    res.require('records_through_a_shared_section_parser', 10)
     res.require('records_decoded_by_concurrent_threads', 1000)
     return res
 
